@@ -213,7 +213,7 @@ def run(ctx):
     ws = mwire.install(ctx)
     log = standin.WireLog()
     classes = {n: standin.make(n, log) for n in NAMES}
-    n_prog = 300 if ctx.tier == "quick" else 6000
+    n_prog = 900 if ctx.tier == "quick" else 8000
     for k in range(n_prog):
         p = progs.gen_program(rng, max_vars=5, cap=1024, depth=rng.choice([1, 2, 3, 4]))
         keyidx = [i for i in range(len(p["decls"])) if rng.random() < 0.6] if rng.random() < 0.8 else []
